@@ -58,4 +58,292 @@ def fnmatch_tables(h):
     h.write("FnmatchTables", body)
 
 
-TABLES = {"FnmatchTables": fnmatch_tables}
+# --------------------------------------------------------------------------------------------------
+# Extension round: the other constants / tables the C04 model relies on.
+#
+#   FnmatchConfig       (from /repo)  Config fields, Error variants, the RegexBuilder flags of
+#                       from_ast_and_config, the literals ast/regex.rs writes, the flags trim.rs sets per
+#                       TrimSide / TrimLength and the flags of case.rs config()
+#   FnmatchRegexSyntax  (from the regex-syntax crate the harness links, version from Cargo.lock)
+#                       is_meta_character, ClassAsciiKind::from_name, hir::translate::ascii_class
+#
+# All lists are emitted SORTED where the order has no meaning, so that reordering is a harmless refactoring.
+
+import glob
+import os
+
+
+def _strip_comments(src):
+    return re.sub(r"//[^\n]*", "", src)
+
+
+def _strip_attrs(src):
+    """remove `#[...]` attributes (their strings may contain brackets)"""
+    out, i = [], 0
+    while i < len(src):
+        if src.startswith("#[", i):
+            depth, i = 0, i + 1
+            while True:
+                c = src[i]
+                if c == '"':
+                    i += 1
+                    while src[i] != '"':
+                        i += 2 if src[i] == "\\" else 1
+                elif c == "[":
+                    depth += 1
+                elif c == "]":
+                    depth -= 1
+                    if depth == 0:
+                        i += 1
+                        break
+                i += 1
+            continue
+        out.append(src[i])
+        i += 1
+    return "".join(out)
+
+
+def _no_tests(src):
+    i = src.find("#[cfg(test)]")
+    return src if i < 0 else src[:i]
+
+
+def _lean_strs(xs):
+    return "[" + ", ".join('"' + x.replace("\\", "\\\\").replace('"', '\\"') + '"' for x in xs) + "]"
+
+
+def _enum_variants(h, src, name, where):
+    body = h.item_body(src, r"pub\s+enum\s+" + name + r"\b", f"enum {name} in {where}")
+    body = _strip_attrs(_strip_comments(body))
+    out = []
+    depth = 0
+    tok = ""
+    for c in body:
+        if c in "({[":
+            depth += 1
+        elif c in ")}]":
+            depth -= 1
+        elif c == "," and depth == 0:
+            out.append(tok)
+            tok = ""
+            continue
+        if depth == 0 and c not in ")}]":
+            tok += c
+    out.append(tok)
+    names = [re.match(r"\s*([A-Za-z_][A-Za-z0-9_]*)", t).group(1) for t in out if t.strip()]
+    if not names:
+        h.fail(f"no variants read: enum {name} in {where}")
+    return names
+
+
+def _struct_fields(h, src, name, where):
+    body = h.item_body(src, r"pub\s+struct\s+" + name + r"\b", f"struct {name} in {where}")
+    body = _strip_attrs(_strip_comments(body))
+    fields = re.findall(r"(?:pub(?:\([^)]*\))?\s+)?([a-z_][a-z0-9_]*)\s*:\s*([A-Za-z0-9_:<>]+)\s*,", body)
+    if not fields:
+        h.fail(f"no fields read: struct {name} in {where}")
+    return fields
+
+
+def _flags_set(h, text, what):
+    """fields set to true in a piece of code: `config.f = true;`, `c.f = true`, `f: true`; `()` / nothing = none.
+    Anything else in the text is a shape this reader does not understand."""
+    t = text.strip().strip("{}").strip()
+    flags = []
+    for stmt in re.split(r"[;,]", t):
+        stmt = stmt.strip()
+        if stmt in ("", "()", "..Default::default()", "..Config::default()"):
+            continue
+        m = re.fullmatch(r"(?:[a-z_][a-z0-9_]*\s*\.\s*)?([a-z_][a-z0-9_]*)\s*[:=]\s*true", stmt)
+        if not m:
+            h.fail(f"shape not understood in {what}: {stmt!r}")
+        flags.append(m.group(1))
+    return sorted(flags)
+
+
+def _match_arm(h, src, variant, what):
+    m = re.search(r"\b(?:[A-Za-z_]+::)*" + variant + r"\s*=>\s*(\{[^}]*\}|[^,\n]*)", src)
+    if not m:
+        h.fail(f"anchor not found: match arm {variant} => in {what}")
+    return m.group(1)
+
+
+def fnmatch_config(h):
+    lib = _no_tests(h.read("yash-fnmatch/src/lib.rs"))
+    fields = _struct_fields(h, lib, "Config", "yash-fnmatch/src/lib.rs")
+    for f, ty in fields:
+        if ty != "bool":
+            h.fail(f"Config field {f}: {ty} is not a bool flag (the model has only flags)")
+    errors = _enum_variants(h, lib, "Error", "yash-fnmatch/src/lib.rs")
+
+    # RegexBuilder::new(..).a(x).b(y).build()
+    m = re.search(r"RegexBuilder::new\s*\(", lib)
+    if not m:
+        h.fail("anchor not found: RegexBuilder::new in yash-fnmatch/src/lib.rs")
+    j = lib.find(".build()", m.end())
+    if j < 0:
+        h.fail("anchor not found: .build() after RegexBuilder::new in yash-fnmatch/src/lib.rs")
+    chain = lib[m.end():j]
+    # skip the argument of new(...)
+    depth, i = 1, 0
+    while depth:
+        depth += {"(": 1, ")": -1}.get(chain[i], 0)
+        i += 1
+    calls = re.findall(r"\.\s*([a-z_]+)\s*\(\s*([^()]*?)\s*\)", chain[i:])
+    rest = re.sub(r"\.\s*[a-z_]+\s*\(\s*[^()]*?\s*\)", "", chain[i:]).strip()
+    if rest or not calls:
+        h.fail(f"shape not understood: RegexBuilder chain in yash-fnmatch/src/lib.rs ({rest!r})")
+    calls = sorted((a, re.sub(r"\s+", "", b)) for a, b in calls)
+
+    # literals written by ast/regex.rs
+    rx = _no_tests(_strip_comments(h.read("yash-fnmatch/src/ast/regex.rs")))
+    lits = set()
+    for mm in re.finditer(r"\b(?:write_char|push)\s*\(\s*'((?:\\.|[^'\\])+)'\s*\)", rx):
+        lits.add(h.rust_char(mm.group(1)))
+    for mm in re.finditer(r"\b(?:write_str|push_str)\s*\(\s*(r?)\"((?:\\.|[^\"\\])*)\"\s*\)", rx):
+        raw, body = mm.group(1), mm.group(2)
+        lits.add(body if raw else re.sub(r"\\(.)", lambda k: h.rust_char("\\" + k.group(1)), body))
+    for mm in re.finditer(r"format_args!\s*\(\s*\"((?:\\.|[^\"\\])*)\"", rx):
+        lits.add("fmt:" + mm.group(1))
+    n_sites = len(re.findall(r"\b(?:write_char|write_str|write_fmt|push|push_str)\s*\(", rx))
+    n_read = len(re.findall(r"\b(?:write_char|push)\s*\(\s*'", rx)) + len(
+        re.findall(r"\b(?:write_str|push_str)\s*\(\s*r?\"", rx)) + len(re.findall(r"write_fmt\s*\(\s*format_args!", rx))
+    n_var = len(re.findall(r"\b(?:write_char|push)\s*\(\s*\*?c\s*\)", rx))
+    if n_sites != n_read + n_var:
+        h.fail(f"shape not understood: {n_sites - n_read - n_var} write site(s) of ast/regex.rs write something that "
+               "is neither a literal nor the character `c`")
+
+    trim = _no_tests(_strip_comments(h.read("yash-semantics/src/expansion/initial/param/trim.rs")))
+    arms = {v: _flags_set(h, _match_arm(h, trim, v, "trim.rs apply"), f"trim.rs arm {v}")
+            for v in ("Prefix", "Suffix", "Shortest", "Longest")}
+    case = _no_tests(_strip_comments(h.read("yash-semantics/src/command/compound_command/case.rs")))
+    cbody = h.item_body(case, r"fn\s+config\s*\(\s*\)\s*->\s*Config", "fn config() in case.rs")
+    cbody = re.sub(r"let\s+mut\s+[a-z_]+\s*=\s*Config::default\(\)\s*;", "", cbody)
+    cbody = re.sub(r"\n\s*[a-z_]+\s*$", "", cbody.rstrip())            # the tail expression `config`
+    cbody = re.sub(r"^\s*Config\s*\{", "", cbody.strip()).rstrip("}")
+    case_flags = _flags_set(h, cbody, "case.rs config()")
+
+    # who uses yash-fnmatch, and does anybody outside the crate touch `case_insensitive` (outside the model)?
+    callers, ci_users = [], []
+    for root, dirs, files in os.walk(h.REPO):
+        dirs[:] = [d for d in dirs if d not in ("target", ".git", "node_modules")]
+        for f in files:
+            if not f.endswith(".rs"):
+                continue
+            rel = os.path.relpath(os.path.join(root, f), h.REPO)
+            if rel.startswith("yash-fnmatch" + os.sep):
+                continue
+            try:
+                text = _strip_comments(open(os.path.join(root, f), encoding="utf-8").read())
+            except (OSError, UnicodeDecodeError):
+                continue
+            if re.search(r"\byash_fnmatch\b", text):
+                callers.append(rel)
+            if re.search(r"\bcase_insensitive\b", text) and re.search(r"\byash_fnmatch\b", text):
+                ci_users.append(rel)
+
+    def pairs(ps):
+        return "[" + ", ".join(f'("{a}", "{b}")' for a, b in ps) + "]"
+
+    body = (
+        "/-- fields of `yash_fnmatch::Config` (all `bool`), sorted -/\n"
+        f"def configFields : List String := {_lean_strs(sorted(f for f, _ in fields))}\n\n"
+        "/-- variants of `yash_fnmatch::Error`, sorted -/\n"
+        f"def errorVariants : List String := {_lean_strs(sorted(errors))}\n\n"
+        "/-- the `RegexBuilder` options `from_ast_and_config` sets: (method, argument), sorted -/\n"
+        f"def regexBuilderFlags : List (String × String) := {pairs(calls)}\n\n"
+        "/-- every literal ast/regex.rs writes into the regex text (`fmt:` = a format string), sorted -/\n"
+        f"def emittedLiterals : List String := {_lean_strs(sorted(lits))}\n\n"
+        "/-- trim.rs `apply`: the `Config` flags each `TrimSide` / `TrimLength` sets to true -/\n"
+        f"def trimPrefixFlags : List String := {_lean_strs(arms['Prefix'])}\n"
+        f"def trimSuffixFlags : List String := {_lean_strs(arms['Suffix'])}\n"
+        f"def trimShortestFlags : List String := {_lean_strs(arms['Shortest'])}\n"
+        f"def trimLongestFlags : List String := {_lean_strs(arms['Longest'])}\n\n"
+        "/-- case.rs `config()`: the flags set to true -/\n"
+        f"def caseConfigFlags : List String := {_lean_strs(case_flags)}\n\n"
+        "/-- every .rs file of /repo outside yash-fnmatch that names `yash_fnmatch`, sorted -/\n"
+        f"def fnmatchCallers : List String := {_lean_strs(sorted(callers))}\n\n"
+        "/-- those of them that mention `case_insensitive` (the flag outside the model) -/\n"
+        f"def caseInsensitiveUsers : List String := {_lean_strs(sorted(ci_users))}\n"
+    )
+    h.write("FnmatchConfig", body)
+
+
+def _regex_syntax_dir(h):
+    ver = None
+    for lock in (os.path.join(os.path.dirname(os.path.dirname(os.path.dirname(os.path.abspath(__file__)))),
+                              "harness", "Cargo.lock"), os.path.join(h.REPO, "Cargo.lock")):
+        if os.path.exists(lock):
+            m = re.search(r'name = "regex-syntax"\s*\nversion = "([^"]+)"', open(lock).read())
+            if m:
+                ver = m.group(1)
+                break
+    if ver is None:
+        h.fail("regex-syntax version not found in harness/Cargo.lock or /repo/Cargo.lock")
+    home = os.environ.get("CARGO_HOME", os.path.expanduser("~/.cargo"))
+    dirs = sorted(glob.glob(os.path.join(home, "registry", "src", "*", f"regex-syntax-{ver}")))
+    if not dirs:
+        h.fail(f"source of regex-syntax {ver} not found under {home}/registry/src")
+    return ver, dirs[0]
+
+
+def _byte_lit(h, t):
+    t = t.strip()
+    m = re.fullmatch(r"b'((?:\\.|\\x[0-9A-Fa-f]{2}|[^'\\]))'", t)
+    if m:
+        return ord(h.rust_char(m.group(1)))
+    m = re.fullmatch(r"(0x[0-9A-Fa-f]+|[0-9]+)(?:u8)?", t)
+    if m:
+        return int(m.group(1), 0)
+    h.fail(f"shape not understood: byte literal {t!r} in regex-syntax ascii_class")
+
+
+def fnmatch_regex_syntax(h):
+    ver, d = _regex_syntax_dir(h)
+    lib = _strip_comments(open(os.path.join(d, "src", "lib.rs")).read())
+    body = h.item_body(lib, r"pub\s+fn\s+is_meta_character\s*\(", "fn is_meta_character (params)")
+    body = h.item_body(lib[lib.index("fn is_meta_character"):], r"\)\s*->\s*bool", "fn is_meta_character (body)")
+    m = re.search(r"match\s+c\s*\{(.*?)=>\s*true\s*,\s*_\s*=>\s*false", body, re.S)
+    if not m:
+        h.fail("shape not understood: is_meta_character of regex-syntax")
+    metas = [h.rust_char(x) for x in re.findall(r"'((?:\\.|[^'\\]))'", m.group(1))]
+    if re.sub(r"'((?:\\.|[^'\\]))'", "", m.group(1)).replace("|", "").strip() or not metas:
+        h.fail("shape not understood: is_meta_character pattern list")
+
+    ast = _strip_comments(open(os.path.join(d, "src", "ast", "mod.rs")).read())
+    i = ast.index("impl ClassAsciiKind")
+    fb = h.item_body(ast[i:], r"pub\s+fn\s+from_name\s*\([^)]*\)\s*->\s*Option<ClassAsciiKind>", "ClassAsciiKind::from_name")
+    names = re.findall(r'"([a-z]+)"\s*=>\s*Some\(\s*([A-Za-z]+)\s*\)', fb)
+    if not names or len(names) != fb.count("=>") - 1:
+        h.fail("shape not understood: ClassAsciiKind::from_name")
+
+    tr = _strip_comments(open(os.path.join(d, "src", "hir", "translate.rs")).read())
+    i = tr.index("fn ascii_class(")
+    tb = h.item_body(tr[i:], r"match\s+\*?kind", "match in hir::translate::ascii_class")
+    ranges = {}
+    for mm in re.finditer(r"([A-Z][a-z]+)\s*=>\s*&\[(.*?)\]\s*,", tb, re.S):
+        prs = re.findall(r"\(\s*([^(),]+)\s*,\s*([^(),]+)\s*\)", mm.group(2))
+        if not prs:
+            h.fail(f"shape not understood: ascii_class arm {mm.group(1)}")
+        ranges[mm.group(1)] = [(_byte_lit(h, a), _byte_lit(h, b)) for a, b in prs]
+    rows = []
+    for name, variant in sorted(names):
+        if variant not in ranges:
+            h.fail(f"ascii_class has no arm for {variant}")
+        rows.append((name, ranges[variant]))
+    if len(ranges) != len(names):
+        h.fail("ascii_class and from_name list different kinds")
+
+    out = (
+        f"/-- regex-syntax version the harness links (Cargo.lock) -/\ndef version : String := \"{ver}\"\n\n"
+        "/-- `regex_syntax::is_meta_character`, sorted by code point -/\n"
+        "def metaChars : List Char := [" + ", ".join(f"Char.ofNat {ord(c)}" for c in sorted(metas)) + "]\n\n"
+        "/-- `ClassAsciiKind::from_name` joined with `hir::translate::ascii_class`: name, byte ranges; sorted by name -/\n"
+        "def asciiClasses : List (String × List (Nat × Nat)) := [\n"
+        + ",\n".join("  (\"" + n + "\", [" + ", ".join(f"({a}, {b})" for a, b in rs) + "])" for n, rs in rows)
+        + "]\n"
+    )
+    h.write("FnmatchRegexSyntax", out)
+
+
+TABLES = {"FnmatchTables": fnmatch_tables, "FnmatchConfig": fnmatch_config, "FnmatchRegexSyntax": fnmatch_regex_syntax}
